@@ -23,7 +23,7 @@ def main():
     r = c.tlc("QGroupImpl", "QGroupImpl_current3" if c.thorough else "QGroupImpl_current", timeout=3000, xmx="16g")
     c.expect_holds(r, "QGroupImpl: the walk over the slots returns the specification's groups for every array of the universe")
     c.stage("model", distinct_states=r.distinct)
-    for cfg in ("QGroupImpl_skip-dead-uncounted", "QGroupImpl_prefix-newest", "QGroupImpl_key-first"):
+    for cfg in ("QGroupImpl_skip-dead-uncounted", "QGroupImpl_prefix-newest", "QGroupImpl_key-first", "QGroupImpl_empty-refused"):
         r = c.tlc("QGroupImpl", cfg, timeout=900, workers=4)
         if not r.violated:
             raise vf.MachineryError("%s: the seeded / earlier behaviour is not rejected" % cfg)
